@@ -51,6 +51,7 @@ SeqToSet(s) == {s[i] : i \in 1..Len(s)}
 GhostInit(S) ==
   [ leaders  |-> {},                      \* <<server, term>> that became leader (Observer, inline)
     agreed   |-> EmptyFn,                 \* index -> entry committed by the omniscient definition
+    reported |-> EmptyFn,                 \* index -> entry that some server REPORTED committed (CommitIndex / FSM apply)
     grants   |-> {},                      \* <<voter, term, candidate>>
     pendVT   |-> [n \in S |-> 0],         \* last value written to LastVoteTerm
     hpend    |-> [n \in S |-> <<>>],      \* handle lines not yet matched with a state line
@@ -262,6 +263,12 @@ DoState(ln) ==
       ag2    == IF dirty THEN FoldCommitted(o2, dl2, ds2, agreed, ActiveLeaders(o2)) ELSE agreed
       newAg  == (DOMAIN ag2) \ (DOMAIN agreed)
       sameInc == post.inc = pre.inc /\ pre.up /\ post.up
+      \* what this server now reports as committed through its CommitIndex (first report wins)
+      newRep == IF post.up THEN [i \in {k \in ((IF sameInc THEN pre.commit ELSE 0) + 1)..post.commit :
+                                           k \in DOMAIN postLog /\ k \notin DOMAIN g.reported /\ k > MaxSet(g.burned)} |-> postLog[i]]
+                ELSE EmptyFn
+      rep2   == g.reported @@ newRep
+      known  == g.reported @@ agreed      \* committed as far as anybody was told, or by the omniscient definition
       started == ln.ev = "state" /\ Has(ln, "cause") /\ ln.cause = "started"
       \* ---- predicates
       vTerm  == (IF post.ct >= pre.ct THEN {} ELSE {<<"C06", "DurableTermDecreased", <<n, pre.ct, post.ct>>>>})
@@ -278,10 +285,10 @@ DoState(ln) ==
       vLog   == IF ~Has(st, "log") THEN {} ELSE
                 (IF TermsMonotone(postLog) THEN {} ELSE {<<"C04", "TermsNotMonotone", <<n>>>>})
                 \cup {<<"C04", "LogMatching", <<n, m>>>> : m \in {x \in servers \ {n} : ~LogMatchingPair(postLog, dlog[x])}}
-                \cup {<<"C03", "AgreedEntryRewritten", <<n, i, preLog[i], postLog[i]>>>> :
-                        i \in {k \in DOMAIN agreed : k \in DOMAIN preLog /\ preLog[k] = agreed[k] /\ k \in DOMAIN postLog /\ postLog[k] # preLog[k]}}
-                \cup {<<"C03", "AgreedEntryTruncated", <<n, i>>>> :
-                        i \in {k \in DOMAIN agreed : k \in DOMAIN preLog /\ preLog[k] = agreed[k] /\ k \notin DOMAIN postLog /\ k > SnapIdxOf(postSn)}}
+                \cup {<<"C03", "CommittedEntryRewritten", <<n, i, preLog[i], postLog[i]>>>> :
+                        i \in {k \in DOMAIN known : k \in DOMAIN preLog /\ preLog[k] = known[k] /\ k \in DOMAIN postLog /\ postLog[k] # preLog[k]}}
+                \cup {<<"C03", "CommittedEntryTruncated", <<n, i>>>> :
+                        i \in {k \in DOMAIN known : k \in DOMAIN preLog /\ preLog[k] = known[k] /\ k \notin DOMAIN postLog /\ k > SnapIdxOf(postSn)}}
                 \cup (IF Cardinality({k \in DOMAIN postLog : postLog[k][2] = "cfg" /\ k \notin DOMAIN ag2 /\ k > SnapIdxOf(postSn)}) <= 1 THEN {}
                       ELSE {<<"C07", "TwoUncommittedConfigs", <<n, {k \in DOMAIN postLog : postLog[k][2] = "cfg" /\ k \notin DOMAIN ag2}>>>>})
                 \cup {<<"C08", "FailedOpStored", <<n, postLog[k][3]>>>> : k \in {j \in DOMAIN postLog : postLog[j][3] \in g.failed}}
@@ -306,7 +313,7 @@ DoState(ln) ==
       V      == vSync \cup conf \cup vTerm \cup vCommit \cup vLog \cup vOnce \cup vHole \cup vLast \cup vLead \cup vInfl \cup vStart \cup vStep
   IN
   /\ obs' = o2 /\ dlog' = dl2 /\ dsnaps' = ds2
-  /\ g' = [g EXCEPT !.agreed = ag2, !.hpend[n] = <<>>, !.slog[n] = postLog,
+  /\ g' = [g EXCEPT !.agreed = ag2, !.reported = rep2, !.hpend[n] = <<>>, !.slog[n] = postLog,
                     !.everSeen = IF Has(st, "log") THEN @ \cup {postLog[i][3] : i \in DOMAIN postLog} ELSE @]
   /\ Judge(V, nc)
   /\ UNCHANGED hdr
@@ -322,7 +329,8 @@ DoRole(ln) ==
            \cup (IF Cardinality(got) >= QuorumSize(tab, obs[n].cl) THEN {}
                  ELSE {<<"C01", "ElectedWithoutQuorum", <<n, ln.term, got, voters>>>>})
            \cup {<<"C03", "LeaderIncomplete", <<n, ln.term, i>>>> :
-                   i \in {k \in DOMAIN g.agreed : k > MaxSet(g.burned) /\ k > SnapIdxOf(dsnaps[n]) /\ ~(k \in DOMAIN dlog[n] /\ dlog[n][k] = g.agreed[k])}}
+                   i \in {k \in DOMAIN (g.reported @@ g.agreed) : k > MaxSet(g.burned) /\ k > SnapIdxOf(dsnaps[n])
+                                /\ ~(k \in DOMAIN dlog[n] /\ dlog[n][k] = (g.reported @@ g.agreed)[k])}}
            \cup (IF IsVoter(tab, obs[n].cl, n) THEN {} ELSE {<<"C07", "NonVoterElected", <<n, ln.term, obs[n].cl>>>>})
   IN
   /\ g' = [g EXCEPT !.leaders = IF gained THEN @ \cup {<<n, ln.term>>} ELSE @,
@@ -404,7 +412,8 @@ DoFsm(ln) ==
              \cup (IF i > g.fsmLast[n] THEN {} ELSE {<<"C02", "ApplyOutOfOrder", <<n, i, g.fsmLast[n]>>>>})
              \cup {<<"C02", "SkippedCommand", <<n, k>>>> :
                      k \in {j \in (g.fsmLast[n] + 1)..(i - 1) : j > MaxSet(g.burned) /\ (j \notin DOMAIN g.agreed \/ g.agreed[j][2] = "cmd")}}
-    IN /\ g' = [g EXCEPT !.fsmLast[n] = Max(@, i)]
+    IN /\ g' = [g EXCEPT !.fsmLast[n] = Max(@, i),
+                         !.reported = IF i \in DOMAIN @ THEN @ ELSE [p \in {i} |-> e] @@ @]
        /\ Judge(V, {}) /\ Keep
   ELSE IF ln.op = "restore" THEN
     LET i == g.fsmOpen[n][1]
